@@ -415,6 +415,17 @@ func generate(seed int64, n int, tier string, names []string) []Case {
 			order[j] = names[p]
 		}
 		cases = append(cases, Case{Kind: "suite", Server: "reference", Config: configs[2], Order: order, Seed: seed})
+		// the tests that do arithmetic on the suite's election id, each as the first test on a fresh server at the
+		// lowest starting id (the thorough tier does this for every test)
+		first := []string{}
+		for _, n := range names {
+			if strings.Contains(n, "lection") || strings.Contains(n, "master") {
+				first = append(first, n)
+			}
+		}
+		cfg := configs[0]
+		cfg.Base = 1
+		cases = append(cases, Case{Kind: "cells", Server: "reference", Config: cfg, Order: first, Seed: seed})
 	}
 	if tier == "thorough" {
 		// every test as the first test on a fresh server, at the lowest election id and in every configuration
